@@ -373,7 +373,9 @@ func runCheck(prop, tier string, seed uint64, skipLean bool) int {
 		}
 	}
 
-	writeEvidence(ctx, p, lean, results, violations)
+	if os.Getenv("VH_NO_EVIDENCE") == "" { // sweeps over other seeds do not rewrite the evidence file
+		writeEvidence(ctx, p, lean, results, violations)
+	}
 	if exit == 0 {
 		fmt.Printf("OK property=%s tier=%s seed=%d wall=%.1fs\n", prop, tier, seed, time.Since(startTime).Seconds())
 	}
